@@ -74,9 +74,10 @@ FO(otid, ottype, size, serial) ==
    cpath |-> << [k |-> "port", p |-> 1, l |-> 0], [k |-> "class", v |-> 2], [k |-> "inst", v |-> 1] >>]
 FC(kind, fo) == [kind |-> kind, sess |-> S1, ctx |-> C1, wrap |-> "simple", route |-> <<>>, tmo |-> 5, req |-> NoReq, fo |-> fo]
 FU(cid, seq, q) == [kind |-> "unit", sess |-> S1, ctx |-> <<seq % 256, 0, 0, 0, 0, 0, 0, 7>>, wrap |-> "simple", route |-> <<>>, tmo |-> 0, req |-> q, cid |-> cid, seq |-> seq]
-Cid1 == <<17, 0, 0, 1>>   Cid2 == <<34, 0, 0, 2>>
+Cid1 == <<17, 0, 0, 1>>   Cid2 == <<34, 0, 0, 2>>   Cid3 == <<51, 0, 0, 3>>
 ConnFrames ==
   { FC("fwdopen", FO(Cid1, 2, 500, 1)), FC("fwdopen", FO(Cid2, 1, 4000, 2)), FC("fwdclose", FO(Cid1, 2, 500, 1)), FC("fwdclose", FO(Cid2, 1, 4000, 2)),
+    FC("fwdopen", FO(Cid3, 3, 100, 0)), FC("fwdclose", FO(Cid3, 3, 100, 0)),                    \* connection serial 0 is a serial like any other
     F("register", S0, C1, "simple", <<>>, NoReq) }
   \cup { FU(c, sq, q) : c \in {Cid1, Cid2}, sq \in {1, 65535}, q \in {WriteA, ReadA, ReadBad, Bundle} }
 FrameSet == IF Frames = "routes" THEN RouteFrames ELSE IF Frames = "pipeline" THEN AllFrames \cup PipeFrames
